@@ -1,6 +1,7 @@
 package props
 
 import (
+	"strings"
 	"context"
 	"fmt"
 	"sync"
@@ -47,7 +48,10 @@ func c10Scenarios(tier string, seed int64) []c10Scn {
 	// earlier unary calls finish while later ones are still in flight; and more unary requests than
 	// the 8 workers (the 9th waits in the read loop)
 	out = append(out, c10Scn{3, 0, true, "ctx-gate", 1}, c10Scn{6, 2, true, "ctx-gate", 3}, c10Scn{2, 1, true, "gate-only", 1},
-		c10Scn{9, 2, true, "ctx-gate", 0}, c10Scn{12, 2, true, "gate-only", 0}, c10Scn{9, 0, true, "ctx-gate", 0})
+		c10Scn{9, 2, true, "ctx-gate", 0}, c10Scn{12, 2, true, "gate-only", 0}, c10Scn{9, 0, true, "ctx-gate", 0},
+		// unary requests that all carry the same id (from different sources: the server does not key
+		// unary calls by id, and a hostile or fanned-in peer may send this)
+		c10Scn{2, 0, true, "ctx-gate/same-id", 0}, c10Scn{3, 1, true, "gate-only/same-id", 0}, c10Scn{4, 2, true, "ctx-gate/same-id", 1})
 	if tier == "thorough" {
 		r := rng(seed, 0, "c10sc")
 		for len(out) < 150 {
@@ -89,6 +93,9 @@ func c10List(tier string, seed int64) []c10Case {
 		if sc.PeerReads {
 			for k := 0; k < sc.responses(); k++ {
 				out = append(out, c10Case{sc, "write-fail", k, []int{1, 4, 16}[(si+k)%3]})
+				// the write error is the transport's own shutdown error (a Demux logical connection
+				// after Stop answers context.Canceled)
+				out = append(out, c10Case{sc, "write-fail/context.Canceled", k, []int{1, 4, 16}[(si+k+1)%3]})
 			}
 		}
 	}
@@ -145,7 +152,7 @@ func c10Run(tier string, seed int64, idx int) *core.Result {
 			gates.Wait("u-early") // released before the end cause: this call completes normally
 			return req, nil
 		}
-		if c.Scn.UnaryKind == "ctx-gate" {
+		if strings.HasPrefix(c.Scn.UnaryKind, "ctx-gate") {
 			<-ctx.Done()
 		}
 		gates.Wait("u")
@@ -226,7 +233,11 @@ func c10Run(tier string, seed int64, idx int) *core.Result {
 		id++
 		takeU := nu < c.Scn.U && (ns >= c.Scn.S || (nu+ns)%2 == 0)
 		if takeU {
-			reqs = append(reqs, &wire.Rpc{Id: id, Header: &goatorepo.RequestHeader{Method: svc.MUnary, Source: "c0", Destination: "srv",
+			uid, src := id, "c0"
+			if strings.HasSuffix(c.Scn.UnaryKind, "/same-id") {
+				uid, src = 1000, fmt.Sprintf("c%d", nu)
+			}
+			reqs = append(reqs, &wire.Rpc{Id: uid, Header: &goatorepo.RequestHeader{Method: svc.MUnary, Source: src, Destination: "srv",
 				Headers: []*goatorepo.KeyValue{{Key: svc.TagKey, Value: fmt.Sprintf("u%d", nu)}}}, Body: &goatorepo.Body{Data: body}})
 			nu++
 		} else {
@@ -242,7 +253,10 @@ func c10Run(tier string, seed int64, idx int) *core.Result {
 		nsend = c.Pos
 	case "stop":
 		nsend = c.Pos
-	case "write-fail":
+	case "write-fail", "write-fail/context.Canceled":
+		if c.Cause == "write-fail/context.Canceled" {
+			l.B.SetWriteErr(fmt.Errorf("logical connection closed: %w", context.Canceled))
+		}
 		l.B.FailWriteAt(c.Pos, false)
 	}
 	writerDone := make(chan struct{})
@@ -292,7 +306,7 @@ func c10Run(tier string, seed int64, idx int) *core.Result {
 	}
 	switch st {
 	case "stuck":
-		if c.Cause == "write-fail" && !served() && c.Pos >= 0 {
+		if strings.HasPrefix(c.Cause, "write-fail") && !served() && c.Pos >= 0 {
 			// did the failing write ever happen?
 		}
 		res.ViolateD("serve-does-not-return/"+c.Cause, map[string]any{"goat_goroutines": goatParked(snap)}, "Serve has not returned in a final state after %s at position %d", c.Cause, c.Pos)
